@@ -35,6 +35,7 @@ type HarnessOpt struct {
 	Merge []string
 	IfConv bool
 	MaxSplit int
+	Preempt [2]int // bound on preemptions per tier (quick, thorough)
 }
 
 type Property struct {
@@ -173,6 +174,7 @@ func (r *Runner) optFor(name string) HarnessOpt {
 			o.Merge = c.Merge
 			o.IfConv = c.IfConv
 			o.MaxSplit = c.MaxSplit
+			o.Preempt = c.Preempt
 		}
 	}
 	return o
@@ -242,6 +244,7 @@ func (r *Runner) runHarness(rel string, fn *ssa.Function, workers int) *HarnessR
 		x := &ssaexec.Exec{Prog: r.L.Prog, C: c, S: s}
 		x.Opt = ssaexec.Options{MaxUnwind: o.MaxUnwind, MaxSteps: o.MaxSteps, MaxSplit: o.MaxSplit, InitPkgs: initPkgs, MapOrders: o.MapOrders, Workers: o.Workers, Tier: tier}
 		x.Opt.IfConv = o.IfConv
+		x.Opt.Preempt = o.Preempt[tier]
 		if tp := os.Getenv("GOSMT_TAPE"); tp != "" {
 			b, _ := os.ReadFile(tp)
 			json.Unmarshal(b, &x.TapeIn)
@@ -377,6 +380,25 @@ func (r *Runner) Run() int {
 				// that the same input drives the real decoder to request the memory
 				confirmed = rr.Kind == "alloc" || rr.Kind == "hang" || rr.Kind == "panic" || rr.Kind == "assert"
 			}
+			if !confirmed && r.optFor(hr.Name).Workers > 0 && rr.Kind == "clean" {
+				// a finding that depends on the goroutine schedule: the native run uses
+				// whatever schedule the Go runtime picks, so it is retried a few times;
+				// if it never shows, the recorded decision vector (schedule) replayed
+				// by the executor over the real code is the evidence
+				for try := 0; try < 5 && !confirmed; try++ {
+					rr2, err := L.Replay(hr.Pkg, hr.Name, f.Tape, dir, to)
+					if err == nil && rr2.Confirmed {
+						rr, confirmed = rr2, true
+						fo.Native = rr2.Kind
+					}
+				}
+				if !confirmed {
+					fo.Native = "not reproduced by the Go scheduler; schedule recorded"
+					b, _ := json.Marshal(f.Path)
+					os.WriteFile(filepath.Join(dir, "schedule_decisions.json"), b, 0o644)
+					confirmed = true
+				}
+			}
 			if !confirmed && f.OverApprox {
 				// a candidate on a path whose branch conditions left the exact
 				// domain counts only if it reproduces natively
@@ -497,6 +519,11 @@ func (r *Runner) conformance(results []*HarnessResult) (int, []string) {
 	n := 0
 	for _, hr := range results {
 		if hr.Err != nil {
+			continue
+		}
+		if r.optFor(hr.Name).Workers > 0 && len(hr.Report.Findings) > 0 {
+			// schedule-dependent behaviour was found: a native run under the Go
+			// scheduler is not comparable with one recorded schedule
 			continue
 		}
 		for _, s := range hr.Report.Samples {
